@@ -10,4 +10,11 @@ import RV.C01.LemBin
     LemIter   histories keep the invariant; generator interleaved with mutations
     LemBin    binary operators over operands of any store; `__iter__` under mutation = start snapshot
     LemStore  store-level API: remove(pattern, None), __all_contexts, contexts, add_graph, remove_graph
+  Round g (imported by Props.lean directly; they build on this entry point):
+    LemIdx    one nested-dictionary index: unique keys (`WFI`), `idxAdd` / `idxDel` / `idxHas`, `flat`
+    LemIdx2   the eight walks = the filters of the flattening (as lists); `del` = `sremove` on the flattening
+    LemNest   `NMem.toMem` commutes exactly with remove, up to index-list order with add (`MEquiv`); `Inv` transfers
+    LemNSimple  the same for `NSMem` / `SMem`
+    LemGen    the concrete generator `NGen`: keys of the first two levels only grow, soundness of every schedule,
+              full run = `NMem.triples`; `triples_choices` glue
 -/
